@@ -62,6 +62,17 @@ def materialise(spec):
          'death_cause': 'self'}
     if h['death'] == 9:
         h['death_cause'] = 'ext'
+    f = rnd.random()
+    if f < .2:
+        # the watcher has a past: earlier stop / start / restart cycles before the operation that is judged
+        cyc = rnd.choice([['stop', 'restart'], ['stop', 'start'], ['stop', 'start', 'stop', 'start'],
+                          ['restart', 'stop', 'restart'], ['stop', 'stop', 'start']])
+        h['steps'] = h['steps'] + [['call', c, {'name': 'a', 'waiting': True}] for c in cyc]
+    elif f < .32:
+        # max_age: workers are being replaced because of their age when the operation arrives
+        ws[0]['max_age'] = 1
+        ws[0]['max_age_variance'] = 0
+        h['steps'] = h['steps'] + [['adv', 1.3], ['check']] + ([['adv', rnd.choice([0, .05, .3])]] if rnd.random() < .7 else [])
     h['tail'] = simgen.gen_steps(rnd, ['a'] if h['op'] == 'stop' else names, TAIL, 2, 6)
     return h
 
@@ -146,6 +157,15 @@ def _history(w, h, res, inject_at, out):
     watchers = {n: w.arb.get_watcher(n) for n in names}
     status0 = {n: watchers[n].status() for n in names}
     before = _table(w)
+    # "every worker the watcher had started": also a worker the daemon has dropped from its table while it was
+    # still running (the process table of the kernel decides, not the daemon's bookkeeping)
+    # (one that has already been sent SIGKILL and is inside the kernel's kill latency is as good as dead; what an
+    # earlier removal leaves as a zombie until the next periodic check is not this operation's business either)
+    offbooks = {}
+    for x in list(w.arb.watchers):
+        offbooks[x.name] = set(p for p in k.live(simhist.tag_of(x.name))
+                               if p not in before.get(x.name, ()) and k.procs[p].state == 'running'
+                               and not (k.procs[p].death_at is not None and k.procs[p].cause == 'circus:9'))
     t_begin = w.clock.now
     mark = k.calls
     if inject_at is not None:
@@ -177,6 +197,11 @@ def _history(w, h, res, inject_at, out):
                     bad.append(('survivor', n, pid))
                 elif stt == 'zombie':
                     bad.append(('zombie', n, pid))
+            for pid in sorted(offbooks.get(n, ())):
+                inspected += 1
+                p_ = k.procs[pid]
+                if p_.state == 'running' and not (p_.death_at is not None and p_.cause == 'circus:9'):
+                    bad.append(('survivor', n, pid))
             if op != 'restart':
                 wo = watchers[n]
                 if wo.status() != 'stopped' or len(wo.processes) != 0:
